@@ -20,6 +20,21 @@ class ReplayUnsupported(Exception):
     pass
 
 
+def cq(text):
+    """C++ narrow string literal whose BYTES are the UTF-8 encoding of `text` (lone surrogates U+DC80..U+DCFF stand for the
+    single bytes 0x80..0xFF, the convention of symexec.cpp_unescape); everything outside printable ASCII as 3-digit octal."""
+    out = []
+    for b in text.encode("utf-8", "surrogateescape"):
+        ch = chr(b)
+        if ch in '"\\?':
+            out.append("\\" + ch)
+        elif 0x20 <= b < 0x7F:
+            out.append(ch)
+        else:
+            out.append("\\%03o" % b)
+    return '"' + "".join(out) + '"'
+
+
 def split_ns(full):
     parts = full.split("::")
     return parts[:-1], parts[-1]
@@ -281,16 +296,16 @@ def gen_driver(backend, events, strings):
         lines.append("#include <analysis/query.h>")
     lines.append("static void setup(std::vector<vrt::EventData>& evs) {")
     for s, i in strings.items():
-        lines.append(f"  vrt::strings()[{json.dumps(s)}] = {i};")
+        lines.append(f"  vrt::strings()[{cq(s)}] = {i};")
     for ce in events:
         lines.append("  { vrt::EventData e;")
         for (ctype, bank), v in ce.store.items():
-            lines.append(f"    e.store[{{{json.dumps(ctype)}, {json.dumps(bank)}}}] = {{{'true' if v['present'] else 'false'}, {v['n']}, {v['base']}}};")
+            lines.append(f"    e.store[{{{cq(ctype)}, {cq(bank)}}}] = {{{'true' if v['present'] else 'false'}, {v['n']}, {v['base']}}};")
         for name, (entries, els, rng) in ce.tables.items():
             lines.append(f"    {{ vrt::TTable t; t.els = {cnum(els)};")
             for k, val in entries.items():
                 lines.append(f"      t.e.push_back({{{{{', '.join(cnum(a) for a in k)}}}, {cnum(val)}}});")
-            lines.append(f"      e.tables[{json.dumps(name)}] = t; }}")
+            lines.append(f"      e.tables[{cq(name)}] = t; }}")
         lines.append("    evs.push_back(e); }")
     lines.append("}")
     if backend == "atlas":
@@ -364,11 +379,11 @@ def compile_and_run(pkg, dm, events, strings, workdir: Path, syntax_only=False, 
     else:
         cmd += ["-o", "replay"]
     cmd += ["driver.cxx"] + srcs
-    r = subprocess.run(cmd, cwd=workdir, capture_output=True, text=True, timeout=timeout)
+    r = subprocess.run(cmd, cwd=workdir, capture_output=True, text=True, errors="surrogateescape", timeout=timeout)
     res = {"ok_compile": r.returncode == 0, "compile_log": (r.stderr or "")[:4000], "cmd": " ".join(cmd)}
     if r.returncode != 0 or syntax_only:
         return res
-    rr = subprocess.run(["./replay"], cwd=workdir, capture_output=True, text=True, timeout=timeout)
+    rr = subprocess.run(["./replay"], cwd=workdir, capture_output=True, text=True, errors="surrogateescape", timeout=timeout)
     res["stdout"] = rr.stdout
     res["returncode"] = rr.returncode
     res["outcome"] = parse_output(rr.stdout, rr.returncode)
